@@ -338,9 +338,40 @@ func strictDomain(d string) bool {
 		if d[len(d)-1] != ']' || len(d) < 3 {
 			return false
 		}
-		for _, c := range []byte(d[1 : len(d)-1]) {
+		in := d[1 : len(d)-1]
+		for _, c := range []byte(in) {
 			if c < 33 || c > 126 || c == '[' || c == ']' || c == '\\' {
 				return false
+			}
+		}
+		// RFC 5321 4.1.3: a dotted quad, or Standardized-tag ":" 1*dcontent
+		// (IPv6 being the only tag in use). Anything else between brackets -
+		// and content with '<' or '>', which no literal in use has and which
+		// every path parser cuts at - is lenient syntax at best (unspecified).
+		if strings.ContainsAny(in, "<>") {
+			return false
+		}
+		if i := strings.IndexByte(in, ':'); i > 0 && i < len(in)-1 {
+			tag := in[:i]
+			for j := 0; j < len(tag); j++ {
+				if !isLetDig(tag[j]) && !(tag[j] == '-' && j > 0 && j < len(tag)-1) {
+					return false
+				}
+			}
+			return true
+		}
+		quad := strings.Split(in, ".")
+		if len(quad) != 4 {
+			return false
+		}
+		for _, n := range quad {
+			if len(n) < 1 || len(n) > 3 {
+				return false
+			}
+			for j := 0; j < len(n); j++ {
+				if n[j] < '0' || n[j] > '9' {
+					return false
+				}
 			}
 		}
 		return true
